@@ -48,14 +48,14 @@ def algorithm(copt, sopt, lr_c, lr_s, hparams_key, backend='jit', loss_mode='rng
   return _CACHE[key]
 
 
-def check_round(alg, c_ref, s_ref, h, state, ref_p, ref_s, cohort, what, nc, loss_mode='rng'):
+def check_round(alg, c_ref, s_ref, h, state, ref_p, ref_s, cohort, what, nc, loss_mode='rng', rtol=1e-4, atol=1e-5):
   """Runs one real round and one reference round; returns (new state, new ref params, new ref opt state)."""
   new_state, diag = alg.apply(state, cohort)
   want_p, want_s, norms = algos.ref_fedavg_round(ref_p, ref_s, cohort, h, c_ref, s_ref, loss_mode)
   got = {k: np.asarray(v, np.float64) for k, v in new_state.params.items()}
   require(all(np.all(np.isfinite(v)) for v in got.values()), what + ': server parameters are not finite', algos.plist(want_p),
           algos.plist(got), case=nc)
-  require(algos.params_close(got, want_p), what + ': server parameters differ from server_opt(sum n_i delta_i / sum n_i)',
+  require(algos.params_close(got, want_p, rtol=rtol, atol=atol), what + ': server parameters differ from server_opt(sum n_i delta_i / sum n_i)',
           algos.plist(want_p), algos.plist(got), case=nc)
   ids = [c[0] for c in cohort]
   require(sorted(diag.keys()) == sorted(ids) and len(diag) == len(set(ids)), what + ': diagnostics entries differ from the '
@@ -133,7 +133,11 @@ def histories(case):
       if 'history' in case and case['history'][:len(hist) + 1] != hist + [name]:
         continue
       cohort = [pop[i] for i in idxs]
-      ns, rp, rs = check_round(alg, c_ref, s_ref, h, state, ref_p, ref_s, cohort, 'round %d' % (len(hist) + 1), nc)
+      # Adam divides by sqrt(v)+1e-8: float32 rounding is amplified and accumulates along a history (the reference is
+      # stepped independently in float64), so the tolerance is one order wider there; seeded defects move results by >= 1e-2
+      tol = (1e-3, 1e-4) if 'adam' in (copt, sopt) else (1e-4, 1e-5)
+      ns, rp, rs = check_round(alg, c_ref, s_ref, h, state, ref_p, ref_s, cohort, 'round %d' % (len(hist) + 1), nc,
+                               rtol=tol[0], atol=tol[1])
       stats['transitions'] += 1
       outs.add(core.digest(algos.plist(rp)))
       rec(hist + [name], ns, rp, rs)
